@@ -537,6 +537,11 @@ ada_really_inline bool url_aggregator::parse_host(std::string_view input) {
   uint8_t is_forbidden_or_upper =
       unicode::contains_forbidden_domain_code_point_or_upper(input.data(),
                                                              input.size());
+#ifdef ADA_URL_ADA_VERIF
+  if (ada_verif_buggify(107)) {
+    is_forbidden_or_upper |= 2;  // conservative: may need to_ascii
+  }
+#endif
   // Minor optimization opportunity:
   // contains_forbidden_domain_code_point_or_upper could be extend to check for
   // the presence of characters that cannot appear in the ipv4 address and we
@@ -548,6 +553,9 @@ ada_really_inline bool url_aggregator::parse_host(std::string_view input) {
       input.find(xn_dash) == std::string_view::npos) {
     // fast path
     update_base_hostname(input);
+#ifdef ADA_URL_ADA_VERIF
+    ada_verif_probe(207);
+#endif
 
     // Check for other IPv4 formats (hex, octal, etc.)
     if (checkers::is_ipv4(get_hostname())) {
@@ -1406,6 +1414,11 @@ inline void url_aggregator::consume_prepared_path(std::string_view input) {
    * modify it, and then insert it back into the buffer.
    */
   uint8_t accumulator = checkers::path_signature(input);
+#ifdef ADA_URL_ADA_VERIF
+  if (ada_verif_buggify(104)) {
+    accumulator = 0xF;  // all hints set: most general builder
+  }
+#endif
   // Let us first detect a trivial case.
   // If it is special, we check that we have no dot, no %,  no \ and no
   // character needing percent encoding. Otherwise, we check that we have no %,
@@ -1449,6 +1462,9 @@ inline void url_aggregator::consume_prepared_path(std::string_view input) {
   }
   if (trivial_path && is_at_path()) {
     ada_log("parse_path trivial");
+#ifdef ADA_URL_ADA_VERIF
+    ada_verif_probe(204);
+#endif
     buffer += '/';
     buffer += input;
     return;
@@ -1464,6 +1480,9 @@ inline void url_aggregator::consume_prepared_path(std::string_view input) {
       (type != ada::scheme::type::FILE);
   if (fast_path) {
     ada_log("parse_prepared_path fast");
+#ifdef ADA_URL_ADA_VERIF
+    ada_verif_probe(214);
+#endif
     // Here we don't need to worry about \ or percent encoding.
     // We also do not have a file protocol. We might have dots, however,
     // but dots must as appear as '.', and they cannot be encoded because
